@@ -1448,7 +1448,15 @@ def main():
         rule="a run is counted non-trivial if its ledger has at least 12 ddp_reallocate calls; distinct = distinct (program, command line, -O level, link flavour)"))
     ck.sample(dict(stream="B", key=P[3][0], expected="balanced ledger, output ends with |ende"))
     ck.sample(dict(stream="M", note="real event sequence between the two marker allocations == Own.run (Own.compile skeleton) with the tape as oracle, pointers renamed by creation order"))
-    ck.finish()
+    ck.finish(explanation=(
+        "FULL: C05_balancedb_correct (the extracted checker that judges every real ledger decides `balanced`), C05_balanced_released_once, "
+        "C05_actions_balanced_on_every_exit (soundness of the static ownership discipline for the code generator's actions on fallthrough, break, "
+        "continue and return, all oracles/fuel), C05_runtime_fns_balanced (free, deep copy, Text and list concatenations transfer ownership as documented). "
+        "PARTIAL: C05_program_balanced_partial covers the skeleton programs whose compiled actions pass the extracted discipline (every generated stream-M "
+        "program without a planted construct does: statically_accepted_runs); no syntactic fragment theorem for Own.compile is proved. "
+        "REFUTED (faithful model, witnesses replayed on the real compiler by stream B/M): C05_program_balanced_refuted (loop conditions, `bis` bounds and loop "
+        "headers with temporaries, continue), C05_scalar_scalar_concat_refuted, C05_nul_text_concat_refuted. "
+        "Types other than Text / Text Liste are tied to the compiler only through the proved ledger checker and ASan, not through the ownership model."))
 
 
 if __name__ == "__main__":
